@@ -50,8 +50,16 @@ def drain_monitors(ctx, idx, payload, own=(), background=True):
     return out
 
 
-def build(ops):
-    return interp.run(ops)
+def build(ops, observed=None):
+    """Run a program.  observed=None: decided from the program itself (half of the programs are built while read-only
+    observations -- accessors, printing, ==/hash, look-ups, listings -- are interleaved with the construction)."""
+    import random
+    h = gen.case_hash(ops)
+    if observed is None:
+        observed = int(h[:2], 16) % 2 == 0
+    if not observed:
+        return interp.run(ops)
+    return interp.run(ops, interp.make_observer(random.Random(h)))
 
 
 def tally_program(ctx, ops, st):
